@@ -130,7 +130,7 @@ def parse_fn_header(ln):
     return f
 
 def parse_module(text):
-    m = Mod(); m.types = collections.OrderedDict(); m.globals = collections.OrderedDict(); m.funcs = collections.OrderedDict(); m.decls = {}; m.attrs = {}
+    m = Mod(); m.exc = '__gxx_personality_v0' in text; m.types = collections.OrderedDict(); m.globals = collections.OrderedDict(); m.funcs = collections.OrderedDict(); m.decls = {}; m.attrs = {}
     lines = text.split('\n'); i = 0
     while i < len(lines):
         ln = lines[i]
@@ -750,12 +750,14 @@ class Emit:
                     if not p.eat(','): break
             p.expect(')')
             post = ''
+            if op == 'call' and s.m.exc: post = ' if (vll_exc) return%s;' % s.retdflt(f)
             if op == 'invoke':
                 while not p.at('to'): p.next()
                 p.next(); p.expect('label'); nl = p.next()[1]; p.expect('unwind'); p.expect('label'); ul = p.next()[1]
                 post = ' if (vll_exc) { %s } else { %s }' % (edge(bname, ul), edge(bname, nl))
             if callee and callee.startswith('@llvm.'):
                 c = s.intrinsic(callee, args, rt)
+                if op == 'call': post = ''
                 if c is None: return post.strip() or None
                 return (setd(rt, c) if dst else c + ';') + post
             if callee and callee[0] == '@':
@@ -779,11 +781,57 @@ class Emit:
             return (setd(rt, c) if dst and s.ctype(rt) != 'void' else c + ';') + post
         if op == 'landingpad':
             t = parse_type(p); regs[dst] = t
-            return '%s = (%s){0}; %s.f0 = vll_exc_obj; %s.f1 = vll_exc_sel;' % (dst, s.ctype(t), dst, dst)
-        if op == 'resume': return 'return%s;' % ('' if s.ctype(f.ret) == 'void' else ' (%s){0}' % s.ctype(f.ret) if s.res(f.ret).k in ('struct', 'arr') else ' 0')
+            # clauses in order; the personality routine enters at the FIRST matching catch clause (selector = type id of
+            # that clause); clang's landing-pad code falls through to 'resume' when the selector matches no handler, so
+            # entering the pad with selector 0 is equivalent to not stopping in this frame
+            sel = '0'
+            for cl in reversed(re.findall(r'\bcatch i8\* (null|[^@]*?(@"(?:[^"\\]|\\.)*"|@[-a-zA-Z$._0-9]+))', ln)):
+                ti = cl[1] if cl[0] != 'null' else None
+                sel = '(%s ? %d : %s)' % (s.eh_match(ti), s.eh_typeid(ti), sel)
+            # entering a landing pad stops the propagation (clean-up code and handlers make ordinary calls); 'resume' restarts it
+            return '%s = (%s){0}; %s.f0 = vll_exc_obj; %s.f1 = %s; vll_exc = 0;' % (dst, s.ctype(t), dst, dst, sel)
+        if op == 'resume': return 'vll_exc = 1; return%s;' % s.retdflt(f)
         if op == 'freeze':
             t = parse_type(p); return setd(t, s.parse_val(p, t, f).c)
         raise NotImplementedError('op ' + op)
+    # ---- C++ exceptions (pending-exception model; runtime in rt/m_eh.c)
+    def retdflt(s, f):
+        return '' if s.ctype(f.ret) == 'void' else ' (%s){0}' % s.ctype(f.ret) if s.res(f.ret).k in ('struct', 'arr') else ' 0'
+    STD_BASES = {'_ZTISt13runtime_error': ['_ZTISt9exception'], '_ZTISt11logic_error': ['_ZTISt9exception'], '_ZTISt9bad_alloc': ['_ZTISt9exception'],
+                 '_ZTISt8bad_cast': ['_ZTISt9exception'], '_ZTISt10bad_typeid': ['_ZTISt9exception'], '_ZTISt17bad_function_call': ['_ZTISt9exception'],
+                 '_ZTISt12length_error': ['_ZTISt11logic_error'], '_ZTISt12out_of_range': ['_ZTISt11logic_error'], '_ZTISt16invalid_argument': ['_ZTISt11logic_error'],
+                 '_ZTISt12domain_error': ['_ZTISt11logic_error'], '_ZTISt11range_error': ['_ZTISt13runtime_error'], '_ZTISt14overflow_error': ['_ZTISt13runtime_error'],
+                 '_ZTISt15underflow_error': ['_ZTISt13runtime_error'], '_ZTISt12system_error': ['_ZTISt13runtime_error'], '_ZTINSt3_V212system_errorE': ['_ZTISt13runtime_error'],
+                 '_ZTISt20bad_array_new_length': ['_ZTISt9bad_alloc'], '_ZTINSt8ios_base7failureB5cxx11E': ['_ZTISt12system_error'],
+                 '_ZTINSt10filesystem7__cxx1116filesystem_errorE': ['_ZTISt12system_error']}
+    def eh_tables(s):
+        if hasattr(s, 'eh_ti'): return
+        s.eh_ti = [g for g in s.m.globals if g.startswith('@_ZTI')]            # every typeinfo object of the module
+        s.eh_base = {}
+        for g in s.eh_ti:
+            rhs = s.m.globals[g].split('=', 1)[1]
+            b = [x for x in re.findall(r'@_ZTI[A-Za-z0-9_]+', rhs) if x != g] if ' external ' not in ' ' + rhs else []
+            s.eh_base[g] = b + ['@' + x for x in s.STD_BASES.get(g[1:], [])]
+        s.eh_ids = {}; s.eh_matchers = collections.OrderedDict()
+    def eh_typeid(s, ti):
+        s.eh_tables()
+        key = ti or 'null'
+        if key not in s.eh_ids: s.eh_ids[key] = len(s.eh_ids) + 1
+        return s.eh_ids[key]
+    def eh_typeid_c(s, cname):
+        s.eh_tables()
+        if cname is None: return s.eh_typeid(None)
+        for g in s.eh_ti:
+            if s.gname(g) == cname: return s.eh_typeid(g)
+        raise NotImplementedError('eh.typeid.for of unknown typeinfo ' + cname)
+    def eh_match(s, ti):
+        # C expression: does the exception in flight match a catch clause for typeinfo ti (None = catch all)?
+        s.eh_tables()
+        if ti is None: return '1'
+        def derives(g, seen=()):
+            return g == ti or any(derives(b, seen + (g,)) for b in s.eh_base.get(g, []) if b not in seen)
+        subs = [g for g in s.eh_ti if g in s.used_globals and derives(g)]       # only types the reachable code mentions can be thrown
+        return '(' + ' || '.join('vll_exc_ti == (void*)&%s' % s.gname(g) for g in subs) + ')'
     def sizeof_bits(s, t):
         if t.k == 'int': return t.bits
         if t.k == 'ptr': return 64
@@ -816,7 +864,9 @@ class Emit:
         if n in ('floor.f64', 'ceil.f64', 'trunc.f64', 'rint.f64', 'nearbyint.f64', 'round.f64'): return '__builtin_%s(%s)' % (n.split('.')[0], args[0].c)
         if n in ('copysign.f64',): return '__builtin_copysign(%s, %s)' % (args[0].c, args[1].c)
         if n == 'trap': return 'VLL_TRAP()'
-        if n.startswith('eh.typeid.for'): return 'vll_typeid_for(%s)' % args[0].c
+        if n.startswith('eh.typeid.for'):
+            mm = re.search(r'&(\w+)\)', args[0].c)
+            return '%d' % s.eh_typeid_c(mm.group(1) if mm else None)
         if n.startswith('fshl.') or n.startswith('fshr.'): return 'vll_%s%d(%s,%s,%s)' % (n[:4], args[0].t.bits, args[0].c, args[1].c, args[2].c)
         if n.startswith('abs.'): return '(%s)(%s < 0 ? -%s : %s)' % (s.ctype(rt), s.sx(args[0]), s.sx(args[0]), s.sx(args[0]))
         raise NotImplementedError('intrinsic ' + name)
@@ -824,7 +874,7 @@ class Emit:
 import os
 BYTELOOPS = os.environ.get('VLL_BYTELOOPS') == '1'   # variable-length memset/memcpy as bounded byte loops instead of CBMC's built-ins
 LIBCGLOBALS = {'__libc_single_threaded', 'stdout', 'stderr', 'stdin', 'environ', 'timezone', 'daylight'}   # real libc objects: declared extern, no prefix
-RTGLOBALS = {'vll_tz_offset', 'vll_now_value', 'vll_now_set', 'vll_alloc_forbidden', 'vra_loc_overflow_prunes', 'vll_fatal_ok', 'vll_fatal_seen', 'vll_exc', 'vll_exc_obj', 'vll_exc_type'}
+RTGLOBALS = {'vll_tz_offset', 'vll_now_value', 'vll_now_set', 'vll_alloc_forbidden', 'vra_loc_overflow_prunes', 'vll_fatal_ok', 'vll_fatal_seen', 'vll_exc', 'vll_exc_obj', 'vll_exc_type', 'vll_exc_ti'}
 BUILTIN = {'strsignal', 'strtoul', 'strtol', 'strtoull', 'strtoll', 'strtod', 'strtof', 'getenv', 'atoi', 'atol', 'qsort', 'bsearch', 'rand', 'srand', 'atexit', 'system', 'memrchr', 'strdup', 'strerror', 'bcmp', '__CPROVER_assume', '__CPROVER_assert', 'malloc', 'free', 'calloc', 'realloc', 'memcpy', 'memset', 'memmove', 'strlen', 'strnlen', 'memchr', 'memcmp', 'strcmp', 'strncmp', 'strcpy', 'strncpy', 'strchr', 'strrchr', 'strstr', 'exit', 'abs', 'labs',
            'vnd_u64', 'vnd_range', 'vassume', 'vassert_at', 'vwitness_at', 'vobs', 'vll_abort', 'vll_assert_fail', 'vll_printf', 'vll_fprintf', 'vll_puts',
            'vll_forbidden', 'vll_rdtsc', 'vll_cxa_atexit', 'vll_guard_acquire', 'vll_guard_release', 'vll_pure_virtual',
